@@ -543,7 +543,11 @@ func AppendBinaryValue(data []byte, fieldType uint8, value interface{}) ([]byte,
 		switch fieldType {
 		case TypeNewDecimal:
 			// 将 decimal 转成字符串
+			// keep the scale of the text value ("1.50", "0.00"): String() trims trailing zeros
 			decStr := v.String()
+			if exp := v.Exponent(); exp < 0 {
+				decStr = v.StringFixed(-exp)
+			}
 			t = []byte(decStr)
 		default:
 			return nil, fmt.Errorf("unsupported field type %d for decimal.Decimal", fieldType)
